@@ -231,7 +231,7 @@ pub fn run(ctx: &Ctx) -> i32 {
             ],
             exhaustive: false,
             extra: Default::default(),
-            min_nontrivial: 1000,
+            min_nontrivial: 100,
         },
     )
 }
